@@ -297,6 +297,21 @@ func ruleEncoderContract(r *core.Run, p *core.Prog, rel string) {
 		}
 		for wi, wcall := range wcalls {
 			arg := ast.Unparen(wcall.Args[0])
+			// a local that merely names the slice (`out := buf[:n]`, or the parameter of an expanded helper) is read at its definition
+			for i := 0; i < 4; i++ {
+				id, isId := arg.(*ast.Ident)
+				if !isId || core.ObjOf(info, id) == pData {
+					break
+				}
+				d := singleDef(info, f.Decl.Body, core.ObjOf(info, id))
+				if d == nil {
+					break
+				}
+				if _, isCall := ast.Unparen(d).(*ast.CallExpr); isCall {
+					break
+				}
+				arg = ast.Unparen(d)
+			}
 			okW, why := false, "dst.Write("+core.Str(arg)+")"
 			switch a := arg.(type) {
 			case *ast.Ident:
